@@ -23,6 +23,13 @@ HARNESSES = [
          bounds='24 public operations x reply shapes (ERROR with symbolic CODE/DESCRIPTION, IRETURNVALUE with 0..2 children of 12 kinds, RETURNVALUE/PARAMVALUE with '
                 'symbolic PARAMTYPE/value, EndOfSequence/EnumerationContext symbolic, wrong response name)',
          quick=dict(timeout=60, parts=12, reach_timeout=60), thorough=dict(timeout=600, parts=24, reach_timeout=120)),
+    dict(name='H3b-reply-shapes', engine='crosshair', module='c02_replies', function='op_shape', reach='op_shape_reach',
+         functions=['pywbem._cim_operations:WBEMConnection.EnumerateInstances', 'pywbem._cim_operations:WBEMConnection._get_objects_from_tuples',
+                    'pywbem._cim_operations:WBEMConnection._get_returned_objects', 'pywbem._cim_operations:WBEMConnection._get_rslt_params'],
+         stubs=['as H3', 'selectors realised, then the operation runs untraced on the reply (solver-enumerated shape space, no symbolic strings)'],
+         bounds='EVERY combination of 24+ operations x reply kind (ERROR / IRETURNVALUE / RETURNVALUE+PARAMVALUE) x 0..2 children x 13 child element kinds x response name right/wrong x '
+                'EndOfSequence / EnumerationContext / parameter value from small literal pools (one of the three varied at a time, with at most one INSTANCE child)',
+         quick=dict(timeout=120, parts=14, reach_timeout=60, reach_parts=14), thorough=dict(timeout=600, parts=14, reach_timeout=60, reach_parts=14)),
     dict(name='H5-http-status-headers', engine='crosshair', module='c02_replies', function='http_reply', reach='http_reply_reach',
          functions=['pywbem._cim_http:wbem_request'],
          stubs=['requests.Session.post -> stub response with symbolic status/reason/headers', '_format -> constant'],
